@@ -13,18 +13,28 @@ P = 'PydlVerif.C11.'
 THEOREMS = [P + t for t in (
     'contrib_nonneg', 'newivar_nonneg', 'newivar_zero_outside', 'newivar_zero_bad_bracket', 'newivar_zero_no_good',
     'newivar_single_is_interp', 'newivar_le_local_max', 'growBad_cases', 'final_ivar_cases', 'final_ivar_nonneg',
-    'final_ivar_zero', 'finish_length', 'combine_length', 'const_flux_const_partial', 'scrub_finite', 'interp_shift', 'shiftRow_feature', 'contrib_scale', 'newivar_scale')]
+    'final_ivar_zero', 'finish_length', 'combine_length', 'const_flux_const_partial', 'scrub_finite', 'interp_shift', 'shiftRow_feature', 'contrib_scale', 'newivar_scale',
+    # extension round
+    'groups_partition', 'finish_flux_length', 'combine_flux_length', 'groupLoop_fcm_outside', 'groupsOf_mem', 'fcm_false_nonpositive',
+    'preprocess_object', 'preprocess_feature', 'wls_scale_normal', 'wls_scale_optimum', 'wls_scale_unique', 'const_fit_everywhere',
+    'const_fit_data')]
 RULE = ('1-D spectra of 110-300 pixels and stacks of 2-3 exposures of 110-170 pixels (identical or dithered grids) x flux '
         '{constant, smooth, noisy, with outliers} x objivar {None, flat, varying} x zero-weight pattern {none, single pixels, runs, '
         'both ends, every other pixel, all but 0-2, all} x output grid {same, sub-pixel shift, wider, narrower, coarser, finer, '
         'beyond the data, overlapping only the last two pixels, 1-3 pixels} x aesthetics {default, traditional, noconst, mean, damp, '
         'nothing, unknown} x maxsep/binsz given or not; refusals (shape mismatch, exposures with fewer than 101 good pixels). A case '
-        'is non-trivial when an output pixel gets inverse variance 0 or the call is refused; distinct = distinct case payloads')
+        'is non-trivial when an output pixel gets inverse variance 0 or the call is refused; distinct = distinct case payloads. '
+        'Self-contained stream: the same families on 1-D spectra of 20-75 pixels (several groups through islands/runs of zero weight, '
+        '1-2 outliers of 15-60 sigma), thorough tier also 6 stacked cases; preprocess_spectra: 1-4 objects, dead fibres')
 TRUSTED = ['hand-written model lean/PydlVerif/Model/Combine.lean (+ Model/Interp.lean, Model/BSpline.lean of C17/C08) tied to the code by the '
            'I/O correspondence of this run: zero pattern of the inverse variance exact, values within rel 1e-9',
-           'iterfit is a parameter of the model: the harness records every real iterfit call made by combine1fiber (unittest.mock wrapper '
+           'stream c1f: iterfit is a parameter of the model: the harness records every real iterfit call made by combine1fiber (unittest.mock wrapper '
            'around the real function) and the model is run on the recorded answers; the arguments the model passes to the fit must be '
            'bit-identical to the recorded ones; the spline is evaluated by the C08 model from the recorded knots and coefficients',
+           'stream c1f:self: the parameter is instantiated with the modelled iterfit (Model/CombineFit.lean fitFull = C10 loop + requiren + degenerate '
+           'branch + invvar=None weights, on C09 fit, C17 djs_reject, C08 constructor/value) and the whole model runs without any recorded answer; '
+           'LAPACK is replaced by the textbook banded Cholesky of Driver/C09, numpy var/mean by plain sums, argsort by a stable insertion sort; '
+           'stream c1f:iterfit compares every real iterfit call with the modelled one (breakpoints bit-exact, both masks exact)',
            'numpy argsort (a sorting permutation, validated by the driver), scipy medfilt window median, numpy mean, scipy erf, np.isfinite: parameters',
            'oracle: direct Python restatement of the statement (bisect-based bracketing, own linear interpolation), metamorphic re-runs of the real code']
 ASSUMPTIONS = ['float64, C-contiguous inputs; finite values; objivar >= 0; wavelengths strictly increasing within each spectrum',
@@ -34,17 +44,26 @@ ASSUMPTIONS = ['float64, C-contiguous inputs; finite values; objivar >= 0; wavel
                'scaling law: inverse variances stay well above EPS = 2^-23 (the code treats |smooth(newivar,3)| < EPS as no data)',
                'finalmask / indisp / skyflux keywords are not covered (they do not influence the two returned arrays)']
 LEVEL_TEXT = ('Machine-checked Lean 4 theorems over an executable model of combine1fiber (grouping, group loop with the spline fit as a '
-              'parameter, inverse-variance pipeline, bad-region growth, scrub, aesthetics) and of preprocess_spectra\'s shift: for all '
+              'parameter AND instantiated with the modelled iterfit of C08/C09/C10/C17 plus requiren, inverse-variance pipeline, bad-region '
+              'growth, scrub, aesthetics) and of preprocess_spectra\'s loop over the objects: for all '
               'inputs, lengths, masks and any answers of the fit, the output inverse variance is >= 0, exactly 0 outside every spectrum\'s range, '
               'where a bracketing input pixel is not kept (with the code\'s explicit EPS slack) and when no pixel is good; for one spectrum '
               'every non-zero value is the linear interpolation of the input inverse variance and at most the larger bracketing value; '
-              'outputs have the grid\'s length; the scrub leaves finite values; np.interp commutes with a shift of the abscissae; the scaling law. '
-              'The model is tied to the repository on every run by I/O correspondence of the whole function on generated spectra, with the '
-              'real iterfit calls recorded and replayed, and checked against an independent statement-level oracle.')
+              'both outputs have the grid\'s length; the scrub leaves finite values; np.interp commutes with a shift of the abscissae; the scaling law '
+              'of the inverse variance. Extension: the groups are a partition of the sorted good pixels into maximal runs of gaps <= maxsep; a pixel '
+              'with inverse variance <= 0 is never kept (any fit); every object of preprocess_spectra is resampled from loglam - log10(1+z_k); the '
+              'weighted least-squares optimum is equivariant under (y, w) -> (c y, w/c^2); a constant spectrum is reproduced by a status-0 fit at every '
+              'weighted pixel (C09 poly_reproduction at degree 0) and everywhere when the optimum is unique. '
+              'The model is tied to the repository on every run by I/O correspondence of the whole function on generated spectra, both with the '
+              'real iterfit calls recorded and replayed and self-contained (no recorded answer), and checked against an independent statement-level oracle.')
 LEVEL_NOTE = ('Partial: "finite" and "identity to interpolation accuracy" are IEEE / numerical statements decided by the harness; theorems are '
-              'over exact ordered fields. The spline fit (iterfit) is a parameter: constant-stays-constant and the scaling of the flux are '
-              'stated relative to its contract (C09/C10). Trusted: Lean kernel, axioms propext/Classical.choice/Quot.sound at most, the '
-              'hand-written model (validated by the correspondence sample only).')
+              'over exact ordered fields. The theorems about the group loop hold for ANY fit parameter; the instantiated fit (fitFull) is '
+              'modelled and compared, its own theorems are C09/C10\'s (requiren and the degenerate branch are modelled and compared only). '
+              'Scaling of the flux and constant-stays-constant are proved at the level of the normal equations / of the object a status-0 fit returns '
+              '(LAPACK contract as a hypothesis), not chained through the ten-pass rejection loop to the output array; const_flux_const_partial keeps '
+              'its contract form. The self-contained run costs about n^3 (C09 assemble compiles to chained closures), hence small spectra; nearly '
+              'singular fits (cond > 1e12) and fits where one Cholesky succeeds and the other does not are counted, not judged. '
+              'Trusted: Lean kernel, axioms propext/Classical.choice/Quot.sound at most, the hand-written model (validated by the correspondence sample only).')
 
 EPS = 2.0 ** -23
 MASKBITS = '''
@@ -604,6 +623,223 @@ def _combine(ctx, cases, search=False):
             ctx.violate(sig, what, dict(small, stream='c1f'))
 
 
+# ================================================================ self-contained model run (no recorded iterfit answers)
+def _small_case(rng, **kw):
+    """a 1-D case of 20-75 pixels (the model's spline fit - C09's `assemble` compiled as chained closures - costs about n^3): same
+    families as `_case`, zero pattern and output grid drawn again for the shorter spectrum; 'islands'/'few'/'runs' give several groups"""
+    c = _case(rng, kind='1d', **kw)
+    t = c['tag']
+    n = rng.randrange(20, 75)
+    c['x'] = [c['x'][0][:n]]
+    c['flux'] = [c['flux'][0][:n]]
+    if t['flux'] == 'spikes':
+        f = c['flux'][0]
+        sig = max(1e-3, float(np.std(np.diff(f))) / 1.5)
+        for _ in range(rng.randrange(1, 3)):
+            f[rng.randrange(n)] += rng.choice([-1, 1]) * sig * rng.uniform(15, 60)
+    if c['ivar'] is not None:
+        iv = [v if v > 0 else 1.0 for v in c['ivar'][0][:n]]
+        z = _zeros(rng, n, t['zero'])
+        c['ivar'] = [[0.0 if zz else v for v, zz in zip(iv, z)]]
+    c['newx'] = _grid(rng, c['x'][0], t['dx'], t['grid'])
+    c['tag'] = dict(t, small=True)
+    return c
+
+
+def _design(gb, k, xs):
+    """own B-spline design matrix (order k, knots gb) by the textbook recursion; used for a condition number only"""
+    n = len(gb) - k
+    g = [float(v) for v in gb]
+    A = np.zeros((len(xs), max(n, 1)))
+    for p, x in enumerate(xs):
+        i = min(max(bisect.bisect_right(g, x) - 1, k - 1), n - 1)
+        N = [1.0]
+        for j in range(1, k):
+            saved, M = 0.0, [0.0] * (j + 1)
+            for r in range(j):
+                right, left = g[i + r + 1] - x, x - g[i + 1 - j + r]
+                den = right + left
+                t = N[r] / den if den != 0 else 0.0
+                M[r] = saved + right * t
+                saved = left * t
+            M[j] = saved
+            N = M
+        A[p, i - k + 1:i + 1] = N
+    return A
+
+
+def _cond_call(r):
+    """2-norm condition number of the normal matrix A^T W A of one recorded fit (returned object, kept points)"""
+    if 'bk' not in r or r['coeff'].size <= 1:
+        return 1.0
+    try:
+        k = int(r['nord'])
+        gb = r['bk'][r['mask']]
+        w = (np.ones(r['x'].size) if r['iv'] is None else np.maximum(r['iv'], 0.0)) * r['bmask']
+        A = _design(gb, k, [float(v) for v in r['x']])
+        G = A.T @ (w[:, None] * A)
+        G = G / max(float(np.abs(G).max()), 1e-300)
+        sv = np.linalg.svd(G, compute_uv=False)
+        return float(sv[0] / sv[-1]) if sv[-1] > 0 else float('inf')
+    except Exception:
+        return float('inf')
+
+
+def _cond(real):
+    """largest condition number among the recorded fits"""
+    return max([1.0] + [_cond_call(r) for r in real['recs']])
+
+
+def _agree_self(c, real, m, ctx=None):
+    """self-contained model run against the real function: outcome, lengths, zero pattern of the inverse variance exact; inverse
+    variance within 1e-9 of its scale; flux within (1e-9 + 1e-13*cond) of its scale, cond = condition number of the normal matrix of
+    the worst recorded fit (own design matrix): the driver's textbook Cholesky and LAPACK differ by rounding, which solving the
+    normal equations amplifies by cond (a fit with knots every 1.2 pixels and missing pixels is nearly singular).
+    Returns (what differs or '', how it was judged)"""
+    impl = _impl_canon(real)
+    if 'err' in impl or 'err' in m or 'ok' not in m:
+        return ('' if impl == m else 'outcome'), 'outcome'
+    fa, va = [np.array([core.b2f(b) for b in l]) for l in impl['ok']]
+    fb, vb = [np.array([core.b2f(b) for b in l]) for l in m['ok']]
+    if len(fa) != len(fb) or len(va) != len(vb):
+        return 'length', 'exact'
+    if ((va == 0) != (vb == 0)).any():
+        return 'ivar-zero-pattern', 'exact'
+    vs = max(float(np.abs(va).max()), 1e-300) if len(va) else 1.0
+    if len(va) and not (np.abs(va - vb) <= 1e-9 * vs).all():
+        return 'ivar-value', '1e-9'
+    if not len(fa):
+        return '', 'empty'
+    if not (np.isfinite(fa).all() and np.isfinite(fb).all()):
+        return ('' if impl['ok'][0] == m['ok'][0] else 'flux-value'), 'nonfinite'
+    fs = max(float(np.abs(fa).max()), 1e-300)
+    d = float(np.abs(fa - fb).max())
+    if d <= 1e-9 * fs:
+        return '', 'flux<=1e-9'
+    cond = _cond(real)
+    if ctx is not None and cond < float('inf'):
+        ctx.count('self:log10(diff/(eps*cond))=%d' % int(math.floor(math.log10(max(d / fs / (2.2e-16 * cond), 1e-30)))))
+    if cond > 1e12:
+        return '', 'ill-conditioned(cond>1e12,not judged)'
+    if d <= (1e-9 + 1e-13 * cond) * fs:
+        return '', 'flux<=1e-13*cond'
+    return 'flux-value', 'cond=%.2g' % cond
+
+
+def _near_threshold(real):
+    """some pixel's scaled residual against the returned curve of a recorded fit (own design matrix) is within 1e-6 of iterfit's
+    5-sigma limit"""
+    for r in real['recs']:
+        if 'bk' not in r or r['coeff'].size <= 1:
+            continue
+        k = int(r['nord'])
+        gb = r['bk'][r['mask']]
+        gc = r['coeff'][r['mask'][k:]]
+        if len(gb) < 2 * k or gc.size != len(gb) - k:
+            continue
+        if r['iv'] is None:
+            var = float(r['y'].var()) * r['y'].size / max(r['y'].size - 1, 1)
+            iv = np.ones(r['x'].size) / (var if var != 0 else 1.0)
+        else:
+            iv = np.maximum(r['iv'], 0.0)
+        yf = _design(gb, k, [float(v) for v in r['x']]) @ gc
+        res = np.abs((r['y'] - yf) * np.sqrt(iv))
+        if (np.abs(res - 5.0) < 5e-6).any():
+            return True
+    return False
+
+
+def _self_lines(c, real):
+    line = _line(c, real)
+    calls = []
+    for r in real['recs']:
+        if r['kw'].get('nord') == 3 and r['kw'].get('requiren') == 1 and r['kw'].get('groupbadpix') is True:
+            e = {'p': 'C11', 'op': 'iterfit', 'x': _bits(r['x']), 'y': _bits(r['y']), 'bkspace': F(r['kw'].get('bkspace', float('nan')))}
+            if r['iv'] is not None:
+                e['iv'] = _bits(r['iv'])
+            calls.append((r, e))
+    return line, dict(line, mode='self', fits=[]), calls
+
+
+def _self(ctx, cases):
+    """stream c1f:self - the whole combine1fiber model with the modelled iterfit (Model/CombineFit.lean `fitFull`), nothing recorded;
+    stream c1f:iterfit - every real iterfit call against the modelled iterfit on the same arguments (breakpoints bit-exact, both
+    masks exact): it localises a disagreement of c1f:self"""
+    rng = ctx.rng
+    lines, idx, reals, percall = [], [], [], []
+    for c in cases:
+        real = _run_real(c)
+        reals.append(real)
+        rec, slf, calls = _self_lines(c, real)
+        idx.append((len(lines), len(lines) + 1, [len(lines) + 2 + k for k in range(len(calls))]))
+        percall.append(calls)
+        lines += [rec, slf] + [e for _, e in calls]
+    out = core.driver_parallel(lines, workers=16, chunk=max(4, len(lines) // 64 + 1)) if lines else []
+    for c, real, (irec, islf, icalls), calls in zip(cases, reals, idx, percall):
+        t = c.get('tag', {})
+        nz = 'err' in real or bool((real['out'][1] == 0).any())
+        ctx.seen({'self': True, 'x0': c['x'][0][:3], 'n': len(c['x'][0]), 'm': len(c['newx']), 'newx0': c['newx'][:2], 'tag': t,
+                  'kw': c['kw'], 'kind': c['kind'], 'f': c['flux'][0][:3]}, nontrivial=nz)
+        ctx.count('self:kind:%s' % c['kind'])
+        ctx.count('self:zero:%s' % t.get('zero'))
+        ctx.count('self:outcome:%s' % (real.get('err') or ('some-zero' if nz else 'all-good')))
+        ctx.count('self:groups-fitted=%d' % min(len(real['recs']), 4))
+        ctx.count('self:pixels-rejected-by-fit', int(sum((~r['bmask']).sum() for r in real['recs'] if 'bmask' in r)))
+        impl = _impl_canon(real)
+        d = _agree(impl, out[irec])
+        if d:
+            ctx.disagree('c1f:' + d, dict(c, stream='c1f'), _short(impl), _short(out[irec]))
+        # per call
+        calldiff = []
+        for k, ((r, _), i) in enumerate(zip(calls, icalls)):
+            m = out[i]
+            if 'err' in r or 'err' in m:
+                if r.get('err') != m.get('err'):
+                    calldiff.append((k, 'outcome', r.get('err'), m.get('err')))
+                continue
+            o = m['ok']
+            cz = r['coeff'].size == 1 and len(r['bk']) - r['nord'] != 1
+            if o['bk'] != _bits(r['bk']):
+                calldiff.append((k, 'breakpoints', None, None))
+            elif o['mask'] != [bool(b) for b in r['mask']]:
+                calldiff.append((k, 'breakpoint-mask', [int(b) for b in r['mask']], [int(b) for b in o['mask']]))
+            elif o['bmask'] != [bool(b) for b in r['bmask']]:
+                calldiff.append((k, 'outmask', [int(b) for b in r['bmask']], [int(b) for b in o['bmask']]))
+            elif bool(o['cz']) != bool(cz):
+                calldiff.append((k, 'coeff=0', cz, o['cz']))
+            ctx.count('self:iterfit-calls-compared')
+        d, how = _agree_self(c, real, out[islf], ctx)
+        # a nearly singular system (one Cholesky succeeds, the other one does not: other breakpoints are dropped, other points
+        # rejected) or a residual at the rejection limit: counted, not judged (as in C09 'marginal' / C10 'near-threshold')
+        marginal = bool(calldiff) and all(w in ('breakpoint-mask', 'outmask') and (_cond_call(calls[k][0]) > 1e10) for k, w, _, _ in calldiff)
+        marginal = marginal or (bool(calldiff) and all(w in ('breakpoint-mask', 'outmask') for _, w, _, _ in calldiff) and _near_threshold(real))
+        if calldiff and not marginal:
+            k, w, a, b = calldiff[0]
+            ctx.disagree('c1f:iterfit:' + w, dict(c, stream='c1f:self', call=k), a, b)
+        if marginal:
+            ctx.count('self:iterfit-call:marginal(cond>1e10 or at the limit; not judged)')
+        if d and marginal:
+            ctx.count('self:marginal(not judged)')
+        elif d:
+            ctx.disagree('c1f:self:' + d, dict(c, stream='c1f:self'), _short(impl), _short(out[islf]))
+        else:
+            ctx.count('self:judged:%s' % how)
+        for sig, what in _oracle(c, real):
+            small = _shrink(c, sig)
+            ctx.violate(sig, what, dict(small, stream='c1f'))
+
+
+def _self_cases(ctx):
+    rng = ctx.rng
+    cases = [_small_case(rng, zerop=zp) for zp in ZEROP] + [_small_case(rng, gridp=gp) for gp in GRIDP]
+    cases += [_small_case(rng, fluxp='spikes', zerop=rng.choice(['none', 'singles']), ivp='flat') for _ in range(ctx.n(6, 60))]
+    cases += [_small_case(rng, fluxp='const', ivp='none', zerop='none'), _small_case(rng, fluxp='smooth', ivp='none', zerop='none')]
+    cases += [_small_case(rng) for _ in range(ctx.n(80, 2500))]
+    # stacked exposures need 101 good pixels each, i.e. a group of 200-500 points: a few, thorough tier only
+    cases += [_case(rng, kind='2d', zerop=rng.choice(['none', 'singles'])) for _ in range(ctx.n(0, 6))]
+    return _with_scale(rng, cases, 0.2)
+
+
 def _short(o):
     if 'ok' in o:
         return {'ok': [[core.b2f(b) for b in l[:12]] for l in o['ok']], 'n': len(o['ok'][0])}
@@ -671,7 +907,7 @@ def _preprocess(ctx):
         real_c1f = spec2d.combine1fiber
 
         def rec(inloglam, objflux, newl, **kw):
-            calls.append((np.array(inloglam), np.array(objflux), np.array(kw['objivar'])))
+            calls.append((np.array(inloglam), np.array(objflux), np.array(kw['objivar']), kw.get('binsz'), np.array(newl)))
             return real_c1f(inloglam, objflux, newl, **kw)
         try:
             with warnings.catch_warnings(), np.errstate(all='ignore'):
@@ -690,6 +926,15 @@ def _preprocess(ctx):
             impl = [_bits(calls[k][0]), _bits(calls[k][1])] if k < len(calls) else None
             if m != impl:
                 ctx.disagree('preprocess:shift', dict(case, obj=k), impl and [impl[0][:4], impl[1][:4]], [m[0][:4], m[1][:4]])
+        # the whole loop: one call per object (dead fibres included), each with its own shift, ivar row, binsz and the grid
+        m = core.driver([{'p': 'C11', 'op': 'preprocess', 'loglam': _bits(loglam), 'logshift': _bits(np.log10(1.0 + zs)),
+                          'flux': [_bits(r) for r in flux], 'ivar': [_bits(r) for r in ivar], 'newx': _bits(newloglam),
+                          'method': case['aesthetics']}])[0]
+        impl = [[_bits(cl[0]), _bits(cl[1]), _bits(cl[2]), [] if cl[3] is None else [F(cl[3])], [len(cl[0])], _bits(cl[4])] for cl in calls]
+        if m != impl:
+            bad = next((k for k in range(min(len(m), len(impl))) if m[k] != impl[k]), min(len(m), len(impl)))
+            ctx.disagree('preprocess:loop', dict(case, obj=bad), {'calls': len(impl)}, {'calls': len(m)})
+        ctx.count('preprocess:calls-compared', len(impl))
         ctx.count('preprocess:dead-fibres=%d' % len(dead))
         for k in range(nobj):
             if k in dead:
@@ -754,6 +999,7 @@ def run(ctx):
     try:
         _grouping(ctx)
         _combine(ctx, cases)
+        _self(ctx, _self_cases(ctx))
         _preprocess(ctx)
     except core.DriverError as e:
         ctx.oblige('lean driver', False, 'build', str(e))
@@ -769,9 +1015,9 @@ def run(ctx):
 def replay(ctx, case):
     _setup(ctx)
     core.audit(ctx, LEAN_MODULES, THEOREMS)
-    if case.get('stream') == 'c1f':
-        c = {k: v for k, v in case.items() if k != 'stream'}
+    if case.get('stream') in ('c1f', 'c1f:self'):
+        c = {k: v for k, v in case.items() if k not in ('stream', 'call')}
         c.setdefault('tag', {})
-        _combine(ctx, [c])
+        (_self if case['stream'] == 'c1f:self' else _combine)(ctx, [c])
     else:
         run(ctx)
